@@ -16,14 +16,31 @@ tevec's own code on top of that contract (NaT guards, `as_cr`, the four TryFrom/
 Calendar (`Months`, `year_ce`, `month`) calls are outside this vocabulary: operands here have months == 0."""
 import re
 
-from . import smt, natives
+from . import smt, natives, chrono_fmt
 from .natives import N, _deref
 from .exec import Executor, _DIVERGE, ExecError
 from .values import *
 
 I64_MIN, I64_MAX = -2 ** 63, 2 ** 63 - 1
 I32_MIN = -2 ** 31
-UNITS = {"Second": (5, 10 ** 9), "Millisecond": (6, 10 ** 6), "Microsecond": (7, 10 ** 3), "Nanosecond": (8, 1)}
+UNITS = {"Second": (5, 10 ** 9), "Millisecond": (6, 10 ** 6), "Microsecond": (7, 10 ** 3), "Nanosecond": (8, 1)}   # (discriminant, ns per tick); discriminants re-read below
+# discriminants of tea_time::TimeUnit in declaration order (Year, Month, Day, Hour, Minute, Second, Millisecond, Microsecond, Nanosecond)
+def _timeunit_order():
+    import os
+    from common import REPO
+    try:
+        src = open(os.path.join(REPO, "tea-time", "src", "timeunit.rs")).read()
+        m = re.search(r"define_timeunit!\(([^)]*)\)", src)
+        names = [x.strip() for x in m.group(1).split(",") if x.strip()]
+        if names:
+            return names
+    except Exception:
+        pass
+    return ["Year", "Month", "Day", "Hour", "Minute", "Second", "Millisecond", "Microsecond", "Nanosecond"]
+
+
+TIMEUNIT_DISC = {n: i for i, n in enumerate(_timeunit_order())}
+UNITS = {k: (TIMEUNIT_DISC.get(k, v[0]), v[1]) for k, v in UNITS.items()}
 SHORT = {"Second": "s", "Millisecond": "ms", "Microsecond": "us", "Nanosecond": "ns"}
 
 
@@ -78,9 +95,27 @@ def _unit_of_type(ty):
     return m.group(1) or "Nanosecond"
 
 
+def _deref_any(ex, v):
+    return _deref(ex, v) if isinstance(v, VRef) else v
+
+
+_tod_memo = {}
+
+
+def time_fields(tod):
+    """ns of day -> (hour, minute, second, ns of second)"""
+    hit = _tod_memo.get(tod)
+    if hit is None:
+        hit = (smt.idiv(tod, C(3600 * 10 ** 9)), smt.imod(smt.idiv(tod, C(60 * 10 ** 9)), C(60)),
+               smt.imod(smt.idiv(tod, C(10 ** 9)), C(60)), smt.imod(tod, C(10 ** 9)))
+        _tod_memo[tod] = hit
+    return hit
+
+
 def make_natives(E, unit):
     disc, uns = UNITS[unit]
     fns = E.fns
+    ex_holder = [None]
 
     def by_module(mod, name):
         c = [f for n, f in fns.items() if re.fullmatch(re.escape(mod) + r"::<impl at [^>]*>::" + re.escape(name), n)]
@@ -111,8 +146,17 @@ def make_natives(E, unit):
     def n_unit(ex, callee, args, m):
         return VEnum(disc)
 
+    def _disc(v):
+        if isinstance(v, VEnum):
+            return v.disc
+        if isinstance(v, VStruct) and not v.items:          # a unit variant written as a path: timeunit::TimeUnit::Nanosecond
+            name = v.name.split("::")[-1]
+            if name in TIMEUNIT_DISC:
+                return TIMEUNIT_DISC[name]
+        raise ExecError(f"TimeUnit value {v!r}")
+
     def n_enum_eq(ex, callee, args, m):
-        return VBool(_deref(ex, args[0]).disc == _deref(ex, args[1]).disc)
+        return VBool(_disc(_deref(ex, args[0])) == _disc(_deref(ex, args[1])))
 
     def n_try_into(ex, callee, args, m):
         return ex.exec_fn(conv("try_from", unit), args)
@@ -347,6 +391,93 @@ def make_natives(E, unit):
         ok = smt.and_(smt.lt(h, C(24)), smt.lt(mi, C(60)), smt.lt(sec, C(60)))
         return VOpt(ok, VStruct("NaiveTime", [VInt(smt.mul(smt.add(smt.add(smt.mul(h, C(3600)), smt.mul(mi, C(60))), sec), C(10 ** 9)))]))
 
+    # ---- text: chrono's strftime / parse_from_str under the format contract of chrono_fmt.py --------------------------
+    def _pystr(v):
+        v = _deref_any(ex_holder[0], v)
+        if not all(b.is_const for b in v.bytes):
+            raise ExecError("symbolic format string")
+        return bytes(int(b.val) for b in v.bytes).decode("ascii")
+
+    def n_unwrap_or(ex, callee, args, m):
+        o = args[0]
+        if not o.some.is_const:
+            raise ExecError("Option::<&str>::unwrap_or on a symbolic option")
+        return o.val if o.some.val else args[1]
+
+    def n_cr_format(ex, callee, args, m):
+        return VStruct("DelayedFormat", [_deref(ex, args[0]), args[1]])
+
+    def n_df_to_string(ex, callee, args, m):
+        ex_holder[0] = ex
+        df = _deref(ex, args[0])
+        t = df.items[0].items[0].t
+        y, mo, d, tod = civil(t)
+        h, mi, sec, ns = time_fields(tod)
+        cls = getattr(ex, "frac_class", None)
+        if cls is None:
+            raise ExecError("formatting without a stated fraction class")
+        ex.oblige(smt.or_(smt.lt(y, C(1000)), smt.gt(y, C(9999))), "year outside the four-digit range of the format model", callee)
+        fields = {"year": y, "month": mo, "day": d, "hour": h, "minute": mi, "second": sec, "nano": ns}
+        return VString(chrono_fmt.format_bytes(fields, _pystr(df.items[1]), cls))
+
+    def n_str_to_string(ex, callee, args, m):
+        return VString(list(_deref(ex, args[0]).bytes))
+
+    def n_parse_dt(ex, callee, args, m):
+        ex_holder[0] = ex
+        bs, fmt = list(_deref(ex, args[0]).bytes), _pystr(args[1])
+        matched, conds, fields = chrono_fmt.parse_fields(bs, fmt)
+        if not matched:
+            return VRes(smt.FALSE, None, VOpaque("ParseError"))
+        pd, okd, ymd = chrono_fmt.resolve_date(fields, days_in_month)
+        pt, okt, tod, gap = chrono_fmt.resolve_time(fields)
+        if not (pd and pt):
+            return VRes(smt.FALSE, None, VOpaque("ParseError"))
+        if not (gap.is_const and not gap.val):
+            ex.model_gaps.append((smt.and_(ex.pc, smt.and_(*(conds + [okd, okt])), gap), "a second field of 60 (leap-second text)"))
+        return VRes(smt.and_(*(conds + [okd, okt])), VStruct("NaiveDateTime", [VInt(instant_of(ymd[0], ymd[1], ymd[2], tod))]), VOpaque("ParseError"))
+
+    def n_parse_date(ex, callee, args, m):
+        ex_holder[0] = ex
+        bs, fmt = list(_deref(ex, args[0]).bytes), _pystr(args[1])
+        matched, conds, fields = chrono_fmt.parse_fields(bs, fmt)
+        if not matched:
+            return VRes(smt.FALSE, None, VOpaque("ParseError"))
+        pd, okd, ymd = chrono_fmt.resolve_date(fields, days_in_month)
+        if not pd:
+            return VRes(smt.FALSE, None, VOpaque("ParseError"))
+        return VRes(smt.and_(*(conds + [okd])), VStruct("NaiveDate", [VInt(ymd[0]), VInt(ymd[1]), VInt(ymd[2])]), VOpaque("ParseError"))
+
+    def n_from_naive(ex, callee, args, m):
+        return cr(args[0].items[0].t)
+
+    def n_ndt_into(ex, callee, args, m):
+        return ex.exec_fn(conv_from("NaiveDateTime"), args)
+
+    def n_nd_into(ex, callee, args, m):
+        return ex.exec_fn(conv_from("NaiveDate"), args)
+
+    def conv_from(ty):
+        for n, f in fns.items():
+            if n.startswith("impl_datetime::<impl at ") and n.endswith("::from") and len(f.args) == 1 and f.args[0][1].strip() == ty \
+                    and "datetime::DateTime<U>" in f.ret:
+                return f
+        raise ExecError(f"no MIR body for From<{ty}> for DateTime<U>")
+
+    def n_slice_iter(ex, callee, args, m):
+        arr = _deref(ex, args[0])
+        return VStruct("slice::Iter", [arr, VInt(0)])
+
+    def n_slice_next(ex, callee, args, m):
+        ref = args[0]
+        it = ex.read_at(ref.cell, ref.path)
+        arr, pos = it.items[0], it.items[1].conc()
+        if pos >= len(arr.items):
+            return VOpt(False, None)
+        ex.write_at(ref.cell, ref.path, VStruct("slice::Iter", [arr, VInt(pos + 1)]))
+        from .exec import Cell
+        return VOpt(True, VRef(Cell(arr.items[pos]), ()))
+
     def n_date_naive(ex, callee, args, m):
         y, mo, d, tod = civil(inst(ex, args[0]))
         return VStruct("NaiveDate", [VInt(y), VInt(mo), VInt(d)])
@@ -420,6 +551,20 @@ def make_natives(E, unit):
         (N(r"^MappedLocalTime::<chrono::DateTime<Utc>>::unwrap$"), lambda ex, c, a, m: a[0]),
         (N(r"^NaiveTime::from_hms_opt$"), n_naive_time_hms),
         (N(r"^Option::<NaiveTime>::(?:unwrap|expect)$"), n_expect),
+        (N(r"^Option::<&str>::unwrap_or$"), n_unwrap_or),
+        (N(r"^chrono::DateTime::<Utc>::format$"), n_cr_format),
+        (N(r"^<DelayedFormat<StrftimeItems<'_>> as ToString>::to_string$"), n_df_to_string),
+        (N(r"^<str as ToString>::to_string$"), n_str_to_string),
+        (N(r"^NaiveDateTime::parse_from_str$"), n_parse_dt),
+        (N(r"^NaiveDate::parse_from_str$"), n_parse_date),
+        (N(r"^chrono::DateTime::<Utc>::from_naive_utc_and_offset$"), n_from_naive),
+        (N(r"^<NaiveDateTime as Into<datetime::DateTime<[UT]>>>::into$"), n_ndt_into),
+        (N(r"^<NaiveDate as Into<datetime::DateTime<[UT]>>>::into$"), n_nd_into),
+        (N(r"^core::slice::<impl \[&str\]>::iter$"), n_slice_iter),
+        (N(r"^<std::slice::Iter<'_, &str> as IntoIterator>::into_iter$"), lambda ex, c, a, m: a[0]),
+        (N(r"^<std::slice::Iter<'_, &str> as Iterator>::next$"), n_slice_next),
+        (N(r"^Arguments::<'_>::|^std::fmt::format$|^must_use::<String>$|^<String as Into<ErrInfo>>::into$|"
+           r"^core::fmt::rt::Argument::<'_>::|^tea_error::__private::must_use$"), lambda ex, c, a, m: VOpaque(c.split("::")[-1])),
         (N(r"^NaiveDate::from_ymd_opt$"), n_from_ymd_opt),
         (N(r"^NaiveDate::and_hms_opt$"), n_and_hms_opt),
         (N(r"^NaiveDate::and_time$"), n_and_time),
@@ -544,9 +689,11 @@ class Run:
         self.E, self.unit = E, unit
         consts = dict(E.consts)
         consts["chrono::NaiveTime::MIN"] = consts["NaiveTime::MIN"] = VStruct("NaiveTime", [VInt(0)])
+        consts["Utc"] = consts["chrono::Utc"] = VStruct("Utc", [])
         self.ex = Executor(E.fns, E.solver, consts, make_natives(E, unit), "f64")
         self.ex.normalizer = None
         self.ex.cr_seen = []          # (path condition, instant) of every chrono -> timestamp conversion
+        self.ex.model_gaps = []       # (condition, what) that must be unreachable for a verdict to count
 
     def call(self, fn, args):
         r = self.ex.exec_fn(fn, args)
@@ -904,3 +1051,278 @@ def validate(E, ops, unit, rng):
         if nat.startswith("PANIC") != sym.startswith("PANIC") or (not nat.startswith("PANIC") and nat != sym):
             bad.append(f"{op} {unit} {nums}: native '{nat[:80]}' vs encoding '{sym}'")
     return n, bad
+
+
+# ---------------------------------------------------------------------------------------------------------------------
+# C18: formatting a date-time and parsing the text back (tevec's strftime / parse executed from MIR, chrono's format
+# interpreter replaced by the contract model of chrono_fmt.py)
+def find_text_fns(E):
+    out = {}
+    for n, f in E.fns.items():
+        if re.fullmatch(r"datetime::<impl at [^>]*>::strftime", n):
+            out["strftime"] = f
+        elif re.fullmatch(r"datetime::<impl at [^>]*>::parse", n) and "DateTime<U>" in f.ret:
+            out["parse"] = f
+    if set(out) != {"strftime", "parse"}:
+        raise ExecError("cannot locate DateTime::strftime / DateTime::parse in the MIR dump")
+    return out
+
+
+def rule_list(E):
+    """the default rule list, read from the MIR of the current tree"""
+    c = [f for n, f in E.fns.items() if n == "const::TIME_RULE_VEC"]
+    if len(c) != 1:
+        raise ExecError("cannot locate TIME_RULE_VEC in the MIR dump")
+    ex = Executor(E.fns, E.solver, E.consts, natives.NATIVES, "f64")
+    arr = ex.exec_fn(c[0], [])
+    return [bytes(int(b.val) for b in s.bytes).decode("ascii") for s in arr.items]
+
+
+def civil_vars_hms(unit):
+    """civil_vars with the within-day part given by hour / minute / second / sub-second variables (sub in units of the
+    date-time's resolution)"""
+    uns = UNITS[unit][1]
+    y, m, d, h, mi, sec = (smt.var(n, smt.INT) for n in ("y", "m", "d", "h", "mi", "sec"))
+    per_s = 10 ** 9 // uns
+    # the sub-second part is given by its decimal digits (9 for ns, 6 for us, 3 for ms, none for s): the formatter's digits are
+    # then these variables and not nine nested div/mod terms
+    nd = {1: 9, 10 ** 3: 6, 10 ** 6: 3, 10 ** 9: 0}[uns]
+    fd = [smt.var(f"f{k}", smt.INT) for k in range(nd)]          # most significant first
+    sub = C(0)
+    for dterm in fd:
+        sub = smt.add(smt.mul(sub, C(10)), dterm)
+    w = smt.add(smt.mul(smt.add(smt.add(smt.mul(h, C(3600)), smt.mul(mi, C(60))), sec), C(per_s)), sub)
+    per_day = NS_DAY // uns
+    ts = smt.add(smt.mul(days_from_civil(y, m, d), C(per_day)), w)
+    inst = smt.mul(ts, C(uns)) if uns != 1 else ts
+    tod = smt.mul(w, C(uns)) if uns != 1 else w
+    ns = smt.mul(sub, C(uns)) if uns != 1 else sub
+    _civil_memo[inst] = (y, m, d, tod)
+    _tod_memo[tod] = (h, mi, sec, ns)
+    all9 = fd + [C(0)] * (9 - nd)
+    chrono_fmt.DIGITS_MEMO[(ns, 9)] = all9
+    chrono_fmt.DIGITS_MEMO[(smt.idiv(ns, C(10 ** 6)), 3)] = all9[:3]
+    chrono_fmt.DIGITS_MEMO[(smt.idiv(ns, C(10 ** 3)), 6)] = all9[:6]
+    dom = [smt.le(C(1), m), smt.le(m, C(12)), smt.le(C(1), d), smt.le(d, days_in_month(y, m)),
+           smt.le(C(0), h), smt.le(h, C(23)), smt.le(C(0), mi), smt.le(mi, C(59)), smt.le(C(0), sec), smt.le(sec, C(59))] + \
+          [smt.and_(smt.le(C(0), dt_), smt.le(dt_, C(9))) for dt_ in fd] + [
+           smt.le(C(1677), y), smt.le(y, C(2262)), smt.le(C(DOM_LO), inst), smt.lt(inst, C(DOM_HI))]
+    return ts, inst, {"y": y, "m": m, "d": d, "h": h, "mi": mi, "sec": sec, "sub": sub, "ns": ns, "tod": tod, "fd": fd}, dom
+
+
+def printed_fields(fmt):
+    f = set()
+    for it in chrono_fmt.items(fmt):
+        if it[0] == "num":
+            f.add(it[1])
+        elif it[0] == "frac":
+            f.add("nano")
+    return f
+
+
+def check_text_roundtrip(E, tf, unit, cls, fmt=None):
+    """strftime(fmt) then parse(text, fmt): the same timestamp, for every date-time of the range whose fraction is of class `cls`
+    (and, for an explicit format, whose fields the format does not print are zero)."""
+    from .exec import Cell
+    uns = UNITS[unit][1]
+    ts, inst, V, dom = civil_vars_hms(unit)
+    dom = dom + chrono_fmt.frac_class_constraint(V["ns"], cls)
+    if fmt is not None:
+        pf = printed_fields(fmt)
+        for name, var in (("hour", V["h"]), ("minute", V["mi"]), ("second", V["sec"]), ("nano", V["sub"])):
+            if name not in pf:
+                dom.append(smt.eq(var, C(0)))
+        if not ({"year", "month", "day"} <= pf):
+            raise ExecError(f"format {fmt!r} does not print a full date")
+    run = Run(E, unit)
+    run.ex.frac_class = cls
+    run.ex.assumptions.extend(dom)        # the NaT guard and similar branches are pruned under the domain
+    run.ex.prune = True
+    fopt = VOpt(False, None) if fmt is None else VOpt(True, VStr([C(b) for b in fmt.encode("ascii")]))
+    text = run.call(tf["strftime"], [VRef(Cell(datetime(ts)), ()), fopt])
+    n_ob = len(run.ex.obligations)
+    run.ex.cr_seen.clear()
+    res = run.call(tf["parse"], [VStr(list(text.bytes)), fopt])
+    o = res.val.items[0].t if res.val is not None else None
+    law = "formatting a date-time and parsing the text back does not return the same instant"
+    qs = [([smt.not_(res.ok)], "the formatted text of a valid date-time is rejected by the parser")]
+    pcs = []
+    if o is not None:
+        for pc, it in run.ex.cr_seen:
+            f = civil(it)
+            qs.append(([pc, res.ok, smt.or_(smt.ne(f[0], V["y"]), smt.ne(f[1], V["m"]), smt.ne(f[2], V["d"]), smt.ne(f[3], V["tod"]))], law))
+            qs.append(([pc, res.ok, smt.ne(o, smt.idiv(it, C(uns)) if uns != 1 else it)], law))
+            pcs.append(pc)
+        qs.append(([res.ok, smt.not_(smt.or_(*pcs)) if pcs else smt.TRUE, smt.ne(o, ts)], law))
+    for ob in run.ex.obligations:
+        qs.append(([ob.cond], "panic while formatting / parsing a valid date-time: " + ob.msg))
+    gaps = [(c, w) for c, w in run.ex.model_gaps]
+    wit = [([smt.lt(ts, C(0))], "a pre-epoch date-time of this fraction class"), ([smt.gt(V["h"], C(12)), smt.eq(V["d"], C(31))] if fmt is None or "hour" in printed_fields(fmt) else [smt.eq(V["d"], C(31))], "afternoon of a 31st")]
+    return (dom, run, qs, V, wit, len(text.bytes), gaps)
+
+
+def model_ts(unit, model):
+    """timestamp of a model of civil_vars_hms"""
+    from fractions import Fraction
+    g = lambda k: int(Fraction((model or {}).get(k, 0)))
+    u = UNITS[unit][1]
+    y, m, d = g("y") or 1970, g("m") or 1, g("d") or 1
+    nd = {1: 9, 10 ** 3: 6, 10 ** 6: 3, 10 ** 9: 0}[u]
+    sub = 0
+    for k in range(nd):
+        sub = sub * 10 + g(f"f{k}")
+    return _days_from_civil(y, m, d) * (NS_DAY // u) + ((g("h") * 3600 + g("mi") * 60 + g("sec")) * (10 ** 9 // u) + sub)
+
+
+def _hex(s):
+    return s.encode("utf-8").hex() or "-"
+
+
+def native_text(unit, ts, fmt):
+    """-> (strftime output or None on panic, parse-back result string)"""
+    from . import replay as rp
+    p = rp._get()
+    f = "-" if fmt is None else _hex(fmt)
+    p.stdin.write(f"dtfmt {SHORT[unit]} {ts} {f}\n"); p.stdin.flush()
+    a = p.stdout.readline().strip()
+    if not a.startswith("S "):
+        return None, a
+    txt = bytes.fromhex(a[2:]).decode("utf-8")
+    p.stdin.write(f"dtparse {SHORT[unit]} {f} {_hex(txt)}\n"); p.stdin.flush()
+    return txt, p.stdout.readline().strip()
+
+
+def native_parse(unit, fmt, txt):
+    from . import replay as rp
+    p = rp._get()
+    f = "-" if fmt is None else _hex(fmt)
+    p.stdin.write(f"dtparse {SHORT[unit]} {f} {_hex(txt)}\n"); p.stdin.flush()
+    return p.stdout.readline().strip()
+
+
+def symbolic_text_on(E, tf, unit, ts, fmt, parse_fmt="same", text=None):
+    """the encoding on a concrete timestamp: (formatted text, parse result 'R ts' / 'ERR' / 'PANIC')"""
+    from .exec import Cell
+    u = UNITS[unit][1]
+    ns = (ts * u) % 10 ** 9
+    cls = "zero" if ns == 0 else "milli" if ns % 10 ** 6 == 0 else "micro" if ns % 1000 == 0 else "nano"
+    run = Run(E, unit)
+    run.ex.frac_class = cls
+    def opt(f):
+        return VOpt(False, None) if f is None else VOpt(True, VStr([C(b) for b in f.encode("ascii")]))
+    if text is None:
+        t = run.call(tf["strftime"], [VRef(Cell(datetime(C(ts))), ()), opt(fmt)])
+        text = bytes(int(b.val) for b in t.bytes).decode("ascii")
+    res = run.call(tf["parse"], [VStr([C(b) for b in text.encode("ascii")]), opt(fmt if parse_fmt == "same" else parse_fmt)])
+    for ob in run.ex.obligations:
+        c = ob.cond
+        if (c.is_const and c.val) or (not c.is_const and smt.evaluate(c, {})):
+            return text, "PANIC"
+    ok = res.ok.val if res.ok.is_const else smt.evaluate(res.ok, {})
+    if not ok:
+        return text, "ERR"
+    return text, "R " + str(const_of(res.val.items[0].t))
+
+
+EXTRA_FORMATS = ["%Y-%m-%d %H:%M:%S%.f", "%Y-%m-%d %H:%M:%S%.3f", "%F %T", "%Y-%m-%dT%H:%M:%S.%f", "%d/%m/%y %H:%M", "%Y-%m-%d %H:%M:%S.%3f",
+                 "%Y%m%d %H%M%S%.6f", "%Y-%m-%d %H:%M"]
+
+
+def validate_text(E, tf, unit, rules, rng):
+    """encoding vs real code + real chrono on concrete date-times: strftime text and the parse result, for the default,
+    every listed format and a few neighbouring formats, including text of one format parsed under another / the rule list"""
+    u = UNITS[unit][1]
+    lo, hi = -(-DOM_LO // u), (DOM_HI - 1) // u
+    per_s = 10 ** 9 // u
+    tss = [0, 1, -1, lo, hi, 1579083630 * per_s, 1579083630 * per_s + per_s // 2, -86400 * per_s * 36525 + 7 * per_s + (per_s // 1000 if per_s >= 1000 else 0),
+           951868799 * per_s + per_s - 1, _days_from_civil(2000, 2, 29) * 86400 * per_s] + [rng.randint(lo, hi) for _ in range(4)]
+    bad, n = [], 0
+    for i, ts in enumerate(tss):
+        fmts = [None] + rules + EXTRA_FORMATS
+        for j, fmt in enumerate(fmts):
+            if (i + j) % 2 and i > 1:
+                continue
+            ntxt, nres = native_text(unit, ts, fmt)
+            try:
+                stxt, sres = symbolic_text_on(E, tf, unit, ts, fmt)
+            except ExecError as e:
+                bad.append(f"{unit} ts={ts} fmt={fmt!r}: encoding cannot run: {e}")
+                continue
+            n += 1
+            if ntxt != stxt or (nres != sres and not (nres.startswith("PANIC") and sres == "PANIC")):
+                bad.append(f"{unit} ts={ts} fmt={fmt!r}: native text {ntxt!r} -> {nres}; encoding {stxt!r} -> {sres}")
+                continue
+            # the same text under the rule list and under another format
+            for pf in (None, fmts[(j + 3) % len(fmts)]):
+                nres2 = native_parse(unit, pf, ntxt)
+                try:
+                    _, sres2 = symbolic_text_on(E, tf, unit, ts, fmt, parse_fmt=pf, text=ntxt)
+                except ExecError as e:
+                    bad.append(f"{unit} text={ntxt!r} parsed with {pf!r}: encoding cannot run: {e}")
+                    continue
+                n += 1
+                if nres2 != sres2 and not (nres2.startswith("PANIC") and sres2 == "PANIC"):
+                    bad.append(f"{unit} text={ntxt!r} parsed with {pf!r}: native {nres2}, encoding {sres2}")
+    for txt in ["2020-01-15 10:20:30.5", "2020-01-15 10:20:30.123456789012", "2020-1-5 1:2:3", " 2020-01-15", "2020-01-15 ", "20200115", "20200115 102030",
+                "15/01/2020", "2020/01/15 10:20:30", "2020-13-01", "2020-02-30", "2020-01-15 24:00:00", "2020-01-15 10:20:61", "+2020-01-15", "-0001-01-01",
+                "2020-01-15 10:20", "", "NaT", "2020-01-1510:20:30", "20200115102030", "15/01/2020 H2030", "15/01/2020H102030", "99990101"]:
+        nres = native_parse(unit, None, txt)
+        try:
+            _, sres = symbolic_text_on(E, tf, unit, 0, None, parse_fmt=None, text=txt)
+        except ExecError as e:
+            bad.append(f"{unit} text={txt!r}: encoding cannot run: {e}")
+            continue
+        n += 1
+        if nres != sres and not (nres.startswith("PANIC") and sres == "PANIC"):
+            bad.append(f"{unit} text={txt!r} under the rule list: native {nres}, encoding {sres}")
+    return n, bad
+
+
+def template_bytes(fmt):
+    """a string of the shape `fmt` prints: literals as they are, every numeric field as symbolic digits of its width"""
+    bs, dvars = [], []
+    for it in chrono_fmt.items(fmt):
+        if it[0] in ("lit", "space"):
+            bs.append(C(it[1]))
+        elif it[0] == "num":
+            for _ in range(it[2]):
+                d = smt.var(f"t{len(dvars)}", smt.INT)
+                dvars.append(d)
+                bs.append(chrono_fmt.digit_byte(d))
+        else:
+            nd = it[1] or 9
+            if it[2]:
+                bs.append(C(46))
+            for _ in range(nd):
+                d = smt.var(f"t{len(dvars)}", smt.INT)
+                dvars.append(d)
+                bs.append(chrono_fmt.digit_byte(d))
+    return bs, dvars
+
+
+def check_parse_total(E, tf, unit, fmt, with_rule_list):
+    """DateTime::<U>::parse on every digit string of the shape of `fmt` (under the rule list or under `fmt` itself): no path
+    to a panic. -> (dom, run, qs, digit vars, byte terms)"""
+    bs, dvars = template_bytes(fmt)
+    dom = [smt.and_(smt.le(C(0), d), smt.le(d, C(9))) for d in dvars]
+    run = Run(E, unit)
+    run.ex.frac_class = "zero"
+    fopt = VOpt(False, None) if with_rule_list else VOpt(True, VStr([C(b) for b in fmt.encode("ascii")]))
+    res = run.call(tf["parse"], [VStr(bs), fopt])
+    qs = [([ob.cond], "DateTime::parse panics on a digit string: " + ob.msg) for ob in run.ex.obligations]
+    # leap-second text (a seconds field of 60) is outside the format model: excluded from the claim
+    for c, w in run.ex.model_gaps:
+        dom.append(smt.not_(c))
+    return dom, run, qs, dvars, bs
+
+
+def template_text(bs, model):
+    from fractions import Fraction
+    out = []
+    for b in bs:
+        if b.is_const:
+            out.append(chr(int(b.val)))
+        else:
+            d = chrono_fmt.DIGIT_OF[b]
+            out.append(str(int(Fraction((model or {}).get(str(d.val) if hasattr(d, "val") else str(d), 0)))))
+    return "".join(out)
